@@ -1061,6 +1061,8 @@ class sptensor:
             return C
 
         if isinstance(other, ttb.tensor):
+            if not self.shape == other.shape:
+                assert False, "Must be tensors of the same shape"
             if self.nnz == 0:
                 return sptensor(shape=self.shape)
             # Only the nonzeros of the dense tensor take part
@@ -1152,6 +1154,8 @@ class sptensor:
         """
         # Case 1: Argument is a scalar or tensor
         if isinstance(other, (float, int, ttb.tensor)):
+            if isinstance(other, ttb.tensor) and self.shape != other.shape:
+                assert False, "Logical Or requires tensors of the same size"
             return self.full().logical_or(other)
 
         # Case 2: Argument is an sptensor
@@ -1226,6 +1230,8 @@ class sptensor:
         """
         # Case 1: Argument is a scalar or dense tensor
         if isinstance(other, (float, int, ttb.tensor)):
+            if isinstance(other, ttb.tensor) and self.shape != other.shape:
+                assert False, "Logical XOR requires tensors of the same size"
             return self.full().logical_xor(other)
 
         # Case 2: Argument is an sptensor
@@ -2883,6 +2889,8 @@ class sptensor:
 
         # Case 1: Second argument is a scalar or a dense tensor
         if isinstance(other, (float, int, ttb.tensor)):
+            if isinstance(other, ttb.tensor) and self.shape != other.shape:
+                assert False, "Must be two tensors of the same shape"
             return self.full() - other
 
         # Case 2: Both are sparse tensors
